@@ -531,7 +531,9 @@ func checkCounterChosenFromWholeText(p *core.Program, r *core.Report, rule strin
 		if core.FnPkgPath(f) != core.ExpandKey("mod/internal/extractor") {
 			continue
 		}
-		for _, call := range core.Calls(f, func(ci ssa.CallInstruction) bool { return core.IsCallTo(ci, "mod/internal/stringutil.SelectWordCounter") }) {
+		for _, call := range core.Calls(f, func(ci ssa.CallInstruction) bool {
+			return core.IsCallTo(ci, "mod/internal/stringutil.SelectWordCounter")
+		}) {
 			nc++
 			arg := call.Common().Args[0]
 			tc, ok := arg.(*ssa.Call)
